@@ -194,7 +194,7 @@ def main(argv=None):
                  'notes': fb['notes'], 'detail': 'concrete fallback of an inconclusive path: ' + fb['reason']}
             by_sig.setdefault(f"{r['harness']}:fallback:{fb['reason'][:50]}:{n_fallback}", []).append((r, f))
             n_fallback += 1
-    violations, known_hits, nonrepro = [], [], []
+    violations, known_hits, nonrepro, ch_spurious = [], [], [], []
     counts = {}
     for r in results:
         for k, v in r.get('finding_counts', {}).items():
@@ -226,7 +226,11 @@ def main(argv=None):
             sig = f"{sig.split(':fallback:')[0]}:{labs[0]}{{fallback=1}}"
         if hit is None:
             p, f, rc, out = lst[-1]
-            if f.get('label') != '*':
+            if sig.startswith('crosshair:'):
+                # CrossHair's models are not exact (a spurious counterexample was observed in the feasibility probes): one that does
+                # not reproduce on the real code makes the condition inconclusive, it is neither a violation nor a harness failure
+                ch_spurious.append((sig, p))
+            elif f.get('label') != '*':
                 nonrepro.append((sig, p, rc, out))
             continue
         k = next((k for k in known if k.get('status') == 'known' and fnmatch.fnmatchcase(sig, k['signature'])), None)
@@ -237,7 +241,7 @@ def main(argv=None):
 
     # ---- evidence
     tot = lambda k: sum(r.get(k, 0) for r in results)      # noqa
-    incon = sum(r.get('n_inconclusive', 0) for r in results) + sum(e.get('inconclusive', 0) for e in extra)
+    incon = sum(r.get('n_inconclusive', 0) for r in results) + sum(e.get('inconclusive', 0) for e in extra) + len(ch_spurious)
     reasons = {}
     for r in results:
         for reason, _ in r.get('inconclusive', []):
@@ -300,6 +304,7 @@ def main(argv=None):
             'counterexamples': {'signatures': len(by_sig), 'reproduced_new': len(violations),
                                 'reproduced_known': len(known_hits), 'not_reproduced': len(nonrepro)},
             'known_findings_reported': [k['signature'] for k, _, _, _ in known_hits],
+            'crosshair_counterexamples_not_reproduced': [sg for sg, _ in ch_spurious],
             'concrete_fallback_runs_for_inconclusive_paths': n_fallback,
         },
         'assumptions': meta.get('assumptions', []),
